@@ -106,9 +106,11 @@ AdmissibleStep(ctx, mayDot, ab, X) ==
     LET plain  == PlainOf(ab, X)
         dotted == DottedOf(ab, X)
         Ok(c)  == ReadsAs(c, ab, X) /\ ValidIn(ctx, c)
-        base   == {c \in {plain, dotted} :
+        literal == Join(ab, X)                       \* the list written as it is (X may itself start with ".")
+        base   == {c \in {plain, dotted, literal} :
                      /\ Ok(c)
-                     /\ (c = dotted /\ ~mayDot) => (NeedsShield(DropLeadDot(X)) /\ (~Ok(plain) \/ ctx.kind = "path"))}
+                     /\ (c = dotted /\ c # literal /\ ~mayDot)
+                           => (NeedsShield(DropLeadDot(X)) /\ (~Ok(plain) \/ ctx.kind = "path"))}
         \* an empty path under an authority may read "" or "/"
         empties == IF DropLeadDot(X) = <<>> /\ ctx.authority # NULL THEN {<<>>, <<cSLASH>>} ELSE {}
     IN  base \cup {c \in empties : ValidIn(ctx, c)}
@@ -165,4 +167,28 @@ ApplyAuthOp(a, op) ==
 AuthStep(w, win, op) ==
     LET a2 == ApplyAuthOp(WinText(w, win), op)
     IN  [text |-> Splice(w, win, a2), win |-> <<win[1], Len(a2)>>]
+(***************************************************************************)
+(* One public mutating call on an owned buffer of family fam and kind k    *)
+(* ("ref" | "full") holding text w: the set of admissible texts afterwards.*)
+(* o = [op |-> name, arg |-> text | NULL]                                  *)
+(***************************************************************************)
+PathOpOf(o) == IF o.op \in {"push", "sym_push"} THEN <<o.op, o.arg>> ELSE <<o.op>>
+
+\* the set of admissible texts after the operation
+EditApply(fam, k, w, o) ==
+    LET P   == Parts(w)
+        ctx == CtxOf(fam, k, w)
+    IN  CASE o.op = "set_scheme"    -> SetScheme(w, o.arg)
+          [] o.op = "set_authority" -> SetAuthority(w, o.arg)
+          [] o.op = "set_path"      -> SetPath(w, o.arg)
+          [] o.op = "set_query"     -> SetQuery(w, o.arg)
+          [] o.op = "set_fragment"  -> SetFragment(w, o.arg)
+          [] o.op = "resolve"       -> ResolveSet(fam, o.arg, w)
+          [] o.op \in {"set_userinfo", "set_host", "set_port"} ->
+                {AuthStep(w, AuthWindow(w), <<o.op, o.arg>>).text}
+          [] OTHER ->
+                LET ab == AbsOf(ctx, P.path)
+                IN  UNION {{Embed(ctx, c) : c \in AdmissibleStep(ctx, HasLeadDot(P.path), ab, A)}
+                           : A \in AltsOf(ab, Segs(P.path), PathOpOf(o))}
+
 =============================================================================
